@@ -170,7 +170,9 @@ def run_both(cases, tag, release=False, model=True, timeout=600):
         # a draw log too long for the model's (quadratic) oracle is not passed on: check.py does not compare such a case
         rng = {k: v for k, v in rng.items() if v and len(v) <= 40000}
         return run_sharded(model_bin(), cs, t, with_rng=rng, timeout=timeout)
-    mod, mprob = run_model(cases, tag + ".model")
+    # (a case flagged skip_model is too large for the model's interpreter - 68 000 live bindings - and is judged by an
+    # intrinsic oracle of its family alone)
+    mod, mprob = run_model([c for c in cases if not c.get("skip_model")], tag + ".model")
     # The harness' per-case watchdog (4 s) can fire spuriously on a loaded machine.  Where the implementation was
     # cut off by the watchdog but the model terminates, the HANG verdict is only believed after the case, run alone
     # with a 60 s limit, still does not finish.
